@@ -449,6 +449,14 @@ class Folder:
         return r
 
     def _fold(self, node: ast.AST):
+        if isinstance(node, ast.Call) and isinstance(node.func, ast.Attribute) and self.ctors and all(k.arg is not None for k in node.keywords):
+            ch_ = attr_chain(node.func)
+            if ch_ is not None and ch_ in self.ctors:
+                # a call the caller models itself (a random draw, a method of a collaborating object), whatever its receiver
+                try:
+                    return self.ctors[ch_](*[self.fold(a) for a in node.args], **{k.arg: self.fold(k.value) for k in node.keywords})
+                except (TypeError, ValueError) as exc:
+                    raise Unfoldable(str(exc))
         if isinstance(node, ast.Constant):
             if isinstance(node.value, (int, float, complex, bool, str)) or node.value is None:
                 return node.value
@@ -1467,6 +1475,8 @@ class Folder:
                 v0 = self._peek(node.args[0])
                 if isinstance(v0, (set, frozenset)):
                     # iteration order of a set is that of the interpreter running the checker (the same CPython as the library)
+                    return len(v0) if nm == "len" else PySeq(sorted(v0) if nm == "sorted" else list(v0))
+                if isinstance(v0, dict):
                     return len(v0) if nm == "len" else PySeq(sorted(v0) if nm == "sorted" else list(v0))
             if short == "eye" and nm.startswith("torch.") and node.args:
                 k_ = self.fold(node.args[0])
